@@ -52,6 +52,14 @@ fn main() {
     let code = common::with_big_stack(move || match cmd.as_str() {
         | "dump-tables" => tables::dump(&opts.out, &opts.rest),
         | "c01" => c01::run(&opts),
+        // the type-equality streams of C01 on their own (same seed derivation as inside `c01`)
+        | "lub" => {
+            let mut sink = common::Sink::new(&opts.out);
+            let mut rng = common::Rng::new(opts.seed ^ 0x1ab);
+            lub::run(&opts, &mut sink, &mut rng);
+            sink.finish();
+            0
+        }
         | "c04" => c04::run(&opts),
         | "c05" => c05::run(&opts),
         | "c06" => c06::run(&opts),
